@@ -738,14 +738,18 @@ def jobs_for(check, mirror, rb, crate, crate_num, U, jobs, tier, KNOWN_PRED, sel
         def desc(m, v):
             return {"n_arguments": model_value(m, v["n_arguments"]), "n_parameters": model_value(m, v["n_parameters"])}
 
-        def replay(i, rb):
+        def replay(i, rb, label=""):
             na, npar = i["n_arguments"], i["n_parameters"]
             ps = ["p%d" % k for k in range(npar)]
             expr = "(function(%s) [%s])(%s)" % (", ".join(ps), ", ".join(ps), ", ".join(str(500 + k) for k in range(na)))
+            if "scope is restored" in label:
+                _, out, _ = replay_call(rb, ["scope_after", "{outer: 10, p0: 5}", expr])
+                return not out.startswith("SAME"), "scope before / after %s: %s" % (expr, out[:160])
             got = _native_value(rb, expr)
             want = "null" if na < npar else "[" + ", ".join(str(500 + k) for k in range(npar)) + "]"
             norm = lambda x: re.sub(r"null\([^)]*\)", "null", x).replace(" ", "")
             return got.startswith("PANIC") or norm(got) != norm(want), "%s -> %s, specified %s" % (expr, got[:100], want)
+        replay.wants_label = True
         jobs.append(lambda c: decide(c, crate, "ops/function_positional", setup, post, replay, rb, models=MODELS, unwind=24, describe=desc, max_cex=4,
                                      need_reach=["reach:two_parameters", "reach:too_few"], known_predicates=KNOWN_PRED))
     if select is None or 'function_positional_job' in select:
@@ -836,17 +840,21 @@ def jobs_for(check, mirror, rb, crate, crate_num, U, jobs, tier, KNOWN_PRED, sel
                 d["arg%d_written_at" % k] = model_value(m, v["arg%d_written_at" % k])
             return d
 
-        def replay(i, rb):
+        def replay(i, rb, label=""):
             npar = i["n_parameters"]
             names = ["p0", "p1", "extra"]
             ps = names[:npar]
             given = sorted([(i["arg%d_written_at" % k], names[k], 500 + k) for k in range(3) if i["arg%d_present" % k]])
             expr = "(function(%s) [%s])(%s)" % (", ".join(ps), ", ".join(ps), ", ".join("%s: %d" % (n, v) for _, n, v in given))
+            if "scope is restored" in label:
+                _, out, _ = replay_call(rb, ["scope_after", "{outer: 10, p0: 5}", expr])
+                return not out.startswith("SAME"), "scope before / after %s: %s" % (expr, out[:160])
             got = _native_value(rb, expr)
             have = {n: v for _, n, v in given}
             want = "null" if any(p not in have for p in ps) else "[" + ", ".join(str(have[p]) for p in ps) + "]"
             norm = lambda x: re.sub(r"null\([^)]*\)", "null", x).replace(" ", "")
             return got.startswith("PANIC") or norm(got) != norm(want), "%s -> %s, specified %s" % (expr, got[:100], want)
+        replay.wants_label = True
         jobs.append(lambda c: decide(c, crate, "ops/function_named", setup, post, replay, rb, models=MODELS, unwind=24, describe=desc, max_cex=4,
                                      need_reach=["reach:two_parameters", "reach:missing"], known_predicates=KNOWN_PRED))
     if select is None or "function_named_job" in select:
